@@ -24,6 +24,7 @@ def _back(s):
 
 
 CASES = [
+    ("addcmul", lambda a, b: torch.addcmul(a, a, b, value=0.5) + a.clone().addcmul_(b, b)), ("addcdiv", lambda a, b: torch.addcdiv(a, b, a * a + 1)),
     ("add", lambda a, b: a + b), ("sub", lambda a, b: a - b), ("mul", lambda a, b: a * b), ("div", lambda a, b: a / (b * b + 1)),
     ("matmul", lambda a, b: a @ b.t()), ("cumsum", lambda a, b: torch.cumsum(a, -1)), ("sum", lambda a, b: a.sum(-1)),
     ("sumall", lambda a, b: torch.sum(a, dim=[0, 1])), ("cat", lambda a, b: torch.cat([a, b], 1)), ("stack", lambda a, b: torch.stack([a, b], 0)),
